@@ -26,7 +26,11 @@ impl Matcher {
     pub fn matches(&self, key: &str) -> bool {
         match self {
             Matcher::Prefix(prefix) => key.starts_with(prefix),
-            Matcher::Suffix(suffix) => key.ends_with(suffix),
+            // A suffix matches the end of a name, but may also be the whole name, in which case
+            // its first character was sanitized as the initial character of the name.
+            Matcher::Suffix(suffix) => {
+                key.ends_with(suffix) || key == sanitize_metric_name(suffix.as_str())
+            }
             Matcher::Full(full) => key == full,
         }
     }
@@ -35,10 +39,20 @@ impl Matcher {
     pub(crate) fn sanitized(self) -> Matcher {
         match self {
             Matcher::Prefix(prefix) => Matcher::Prefix(sanitize_metric_name(prefix.as_str())),
-            Matcher::Suffix(suffix) => Matcher::Suffix(sanitize_metric_name(suffix.as_str())),
+            Matcher::Suffix(suffix) => Matcher::Suffix(sanitize_metric_name_suffix(suffix.as_str())),
             Matcher::Full(full) => Matcher::Full(sanitize_metric_name(full.as_str())),
         }
     }
+}
+
+/// Sanitizes the end of a metric name.
+///
+/// Unlike the first character of a name, the first character of a suffix generally lands in the
+/// middle of the sanitized name, where digits are valid: sanitize it like a non-initial character.
+fn sanitize_metric_name_suffix(suffix: &str) -> String {
+    let mut sanitized = sanitize_metric_name(&format!("_{suffix}"));
+    sanitized.remove(0);
+    sanitized
 }
 
 /// Errors that could occur while building or installing a Prometheus recorder/exporter.
